@@ -41,6 +41,8 @@ pub struct SubInst {
     pub skip_to: u32,
     /// number of accepted messages when the subscription ended
     pub closed_at: Option<u32>,
+    /// MQTT 5 subscription identifier given in the SUBSCRIBE
+    pub sub_id: Option<usize>,
 }
 
 #[derive(Clone, Debug, Default, Hash)]
@@ -475,11 +477,16 @@ impl Model {
                 }
                 None => self.closing(ci),
             },
-            Tx::Subscribe { pkid, filters, .. } => {
+            Tx::Subscribe { pkid, filters, sub_id } => {
                 let mut codes = vec![];
                 for (f, q) in filters {
                     codes.push(*q);
                     self.subscribe(ci, f, *q);
+                    // the subscription identifier belongs to the subscription (and with it
+                    // to the session)
+                    for s in self.clients[ci].subs.iter_mut().filter(|s| s.active && s.filter == *f) {
+                        s.sub_id = sub_id.map(|x| x as usize);
+                    }
                 }
                 self.clients[ci].replies_expected.push_back(Rx::SubAck { pkid: *pkid, codes });
             }
@@ -589,6 +596,7 @@ impl Model {
             restart: 0,
             skip_to: 0,
             closed_at: None,
+            sub_id: None,
         });
         for p in c.frontier.iter_mut() {
             p.push(0);
@@ -686,6 +694,25 @@ impl Model {
                 self.push_outstanding(ci, pkid, None);
             }
             return;
+        }
+        // ---- subscription identifiers (MQTT 5 subscribers): a forward carries the identifier
+        // of the subscription it is sent for, also after the session has been resumed
+        if self.v5.get(ci).copied().unwrap_or(false) && matches!(self.prop.as_str(), "C08" | "C20") {
+            let matching: Vec<Option<usize>> = self.clients[ci]
+                .subs
+                .iter()
+                .filter(|s| s.active && ref_matches(topic, &s.match_filter))
+                .map(|s| s.sub_id)
+                .collect();
+            let got: Vec<usize> = props.as_ref().map(|p| p.sub_ids.clone()).unwrap_or_default();
+            if !matching.is_empty() {
+                let allowed: Vec<usize> = matching.iter().flatten().cloned().collect();
+                if got.iter().any(|g| !allowed.contains(g)) {
+                    self.v("subscription_id_wrong", format!("forward of {topic} to {name} carries subscription identifiers {got:?}; its matching subscriptions have {matching:?}"));
+                } else if got.is_empty() && matching.iter().all(|m| m.is_some()) {
+                    self.v("subscription_id_missing", format!("forward of {topic} to {name} carries no subscription identifier; its matching subscriptions have {matching:?}"));
+                }
+            }
         }
         // ---- replay of a retained message for a new subscription
         if retain {
